@@ -54,7 +54,8 @@ Probe(x, t, l, base) ==
 
 Trees == TV(T, L)
 LayoutCase(vi) == [k |-> "layout", id |-> Catalog[ci].id, L |-> L, facts |-> Facts,
-                   img |-> Fill(Enc(Trees[vi], T, L), 0), tree |-> Trees[vi], probe |-> Probe(Trees[vi], T, L, 0)]
+                   img |-> Fill(Enc(Trees[vi], T, L), 0), tree |-> Trees[vi], probe |-> Probe(Trees[vi], T, L, 0),
+                   extent |-> Size(Trees[vi], T)]
 
 EmitDesc == L = MinSize(T) => PrintT(<<"DESC", ToJson(Catalog[ci])>>)
 EmitFacts == \A vi \in 1..Len(Trees) : PrintT(<<"CASE", ToJson(LayoutCase(vi))>>)
